@@ -17,6 +17,9 @@ Event == [pre |-> c, op |-> last'.op, v |-> last'.v, w |-> last'.w, a |-> last'.
           ok |-> last'.ok, exc |-> last'.exc, lo |-> last'.lo, hi |-> last'.hi, ret |-> last'.ret,
           c |-> c', views |-> [u \in 1..MaxViews |-> views'[u]], dirty |-> SetToSeq(dirty')]
 
+SBn(n) == Near(n) \cup {NoneB}
+IBn(n) == Near(n) \cup {EndB, IntB(0 - n - 1), IntB(0 - n - 2)}     \* more weight on "before the window"
+
 (* one random argument tuple per (operation, view): the draw is bound by \E   *)
 (* over a singleton so that the effect and `last` see the same values         *)
 SThrough(v, op, A, B, K) ==
@@ -25,11 +28,12 @@ SThrough(v, op, A, B, K) ==
 Step ==
   \/ \E v \in Live :
        LET n == VLen(v) IN
-       \/ SThrough(v, "setslice", SB(n), SB(n), 0..MaxNew)
-       \/ SThrough(v, "delslice", SB(n), SB(n), {0})
+       \/ SThrough(v, "setslice", SBn(n), SBn(n), 0..MaxNew)
+       \/ SThrough(v, "delslice", SBn(n), SBn(n), {0})
        \/ SThrough(v, "setidx", Near(n), {NoneB}, {1})
        \/ SThrough(v, "delidx", Near(n), {NoneB}, {0})
-       \/ SThrough(v, "insert", IB(n), {NoneB}, 1..MaxNew)
+       \/ SThrough(v, "insert", IBn(n), {NoneB}, 1..MaxNew)
+       \/ SThrough(v, "insert", {IntB(0 - n - 1), IntB(0 - n - 2), IntB(n + 1), EndB}, {NoneB}, 1..MaxNew)   \* out of the window
        \/ SThrough(v, "append", {NoneB}, {NoneB}, {1})
        \/ SThrough(v, "extend", {NoneB}, {NoneB}, 1..MaxNew)
        \/ SThrough(v, "prepend", {NoneB}, {NoneB}, {1})
@@ -38,13 +42,16 @@ Step ==
        \/ SThrough(v, "remove", {NoneB}, {NoneB}, {0})
        \/ SThrough(v, "cut", {NoneB}, {NoneB}, {0})
        \/ Use(v)
-       \/ \E w \in {Rnd(1..MaxViews)} : \E a \in {Rnd(SB(n))} : \E b \in {Rnd(SB(n))} : MkSub(v, w, a, b)
+       \/ \E w \in {Rnd(1..MaxViews)} : \E a \in {Rnd(SBn(n))} : \E b \in {Rnd(SBn(n))} : MkSub(v, w, a, b)
+       \/ \E w \in {Rnd(1..MaxViews \ {v})} : \E a \in {Rnd(SBn(n))} : \E b \in {Rnd(SBn(n))} : MkSub(v, w, a, b)
   \/ \E w \in {Rnd(1..MaxViews)} : MkFull(w)
-  \/ \E a \in {Rnd(IB(Len(c)))} : \E b \in {Rnd(IB(Len(c)))} : \E k \in {Rnd(0..MaxNew)} : Room(k) /\ BasePut(a, b, New(k))
+  \/ \E a \in {Rnd(IBn(Len(c)))} : \E b \in {Rnd(IBn(Len(c)))} : \E k \in {Rnd(0..MaxNew)} : Room(k) /\ BasePut(a, b, New(k))
 
 (* the walk ends with one closing step so that each behaviour is printed once *)
 SimInit == Init /\ hist = <<>>
-SimNext == \/ Len(hist) < SimDepth /\ Step /\ hist' = Append(hist, Event)
+(* a behaviour starts by taking the whole-field view, the rest is random      *)
+SimNext == \/ Len(hist) = 0 /\ MkFull(1) /\ hist' = Append(hist, Event)
+           \/ Len(hist) > 0 /\ Len(hist) < SimDepth /\ Step /\ hist' = Append(hist, Event)
            \/ Len(hist) = SimDepth /\ hist' = Append(hist, [op |-> "end"]) /\ UNCHANGED vars
 SimSpec == SimInit /\ [][SimNext]_svars
 
